@@ -80,6 +80,9 @@ impl Api for LegacyApi {
 /// name (`contract3`, `CONTRACT3`): addresses that are prefixes of each other and addresses that
 /// differ only in letter case both occur
 pub fn legacy_name(instance: u64) -> String {
+    // not injective on purpose: instance 7 gets the address of instance 0, 8 that of 1, … (a classic instantiation at
+    // an occupied address must be refused)
+    let instance = instance % 7;
     if instance % 5 == 4 {
         format!("CONTRACT{}", instance - 1)
     } else {
@@ -509,7 +512,8 @@ impl Contract<Empty> for Scripted {
             SubMsgResult::Err(_) => "err".to_string(),
         };
         let text = String::from_utf8_lossy(msg.payload.as_slice()).to_string();
-        let extra = format!("reply:{}:{}", msg.id, res);
+        // Reply::gas_used is not metered by the simulator: always 0
+        let extra = format!("reply:{}:{}~g{}", msg.id, res, msg.gas_used);
         self.run(deps, env, "reply", None, text, extra)
     }
     fn migrate(&self, deps: DepsMut, env: Env, msg: Vec<u8>) -> AnyResult<Response> {
